@@ -5,7 +5,7 @@ on every run; nothing is cached.  Supported statements: Assign (names, tuple tar
 If, While (bounded unrolling; a path that wants one more iteration than the bound is reported
 as `cut`, never silently dropped), Expr(Yield), Raise, Return, Pass, docstrings.  Expressions:
 constants, names, + - * / %, unary -/not, comparisons (chains), and/or (short-circuit forking),
-IfExp, calls of float(), random.random(), math.log(x, base), math.ceil(x) (the last three
+IfExp, calls of float(), two-argument min()/max(), random.random(), math.log(x, base), math.ceil(x) (the last three
 through pluggable models).  Anything else raises Unsupported (the check then exits with the
 harness-error code: a refactoring can make the check inconclusive, never silently wrong).
 
@@ -213,6 +213,13 @@ class Interp:
                 if isinstance(a, (int, float)):
                     return z3.RealVal(repr(a))
                 return z3.ToReal(a) if z3.is_int(a) else a
+            if fn in ('min', 'max') and len(args) == 2 and not node.keywords:
+                # two-argument min/max: fork on the comparison (like Python: min returns the first argument on ties)
+                a, b = args
+                if isinstance(a, (int, float)) and isinstance(b, (int, float)) and not isinstance(a, bool) and not isinstance(b, bool):
+                    return min(a, b) if fn == 'min' else max(a, b)
+                first_wins = self.branch(self.cmp(ast.LtE() if fn == 'min' else ast.GtE(), a, b), path)
+                return a if first_wins else b
             if fn in self.models:
                 return self.models[fn](self, path, *args)
             raise Unsupported('call of %s' % fn)
